@@ -671,6 +671,17 @@ def gen_interrupt(rng):
         # a source (with its own sink) created between two simulate() calls: its first cycle starts then
         spec.setdefault('between', []).append([0, 'newsource', rng.choice([1, 2.5, 4, 8]), rng.choice([3, 8])])
     if rng.random() < 0.3:
+        # a source that starts with no downstream at all; a machine with its own sink is attached to it later (from an
+        # event, or between two runs)
+        devs.insert(0, {'k': 'S', 'n': 'SL', 'c': rng.choice([0.5, 1, 2]), 'budget': rng.choice([INF, 4]), 'batch': None,
+                        'val': 1})
+        if len(spec['T']) > 1 and rng.random() < 0.5:
+            spec['between'] = [b for b in spec.get('between', []) if b[1] != 'newline']
+            spec['between'].append([0, 'newline', ['SL'], rng.choice([0, 0.5, 1])])
+        else:
+            spec['between'] = [b for b in spec.get('between', []) if b[1] != 'newline']
+            spec['actions'].append([rng.choice([1, 2.5, 3, 4.5]), rng.choice(PRIOS), 'newline', ['SL'], rng.choice([0, 0.5, 1])])
+    if rng.random() < 0.3:
         # one-shot offsets requested before the first run
         tg = [d['n'] for d in devs if d['k'] in ('P', 'H', 'K')]
         spec['pre_offsets'] = [[rng.choice(tg), rng.choice([0.5, 1, 2.5, -0.25])] for _ in range(rng.choice([1, 2]))]
